@@ -9,7 +9,10 @@
         heaps for pointers that leave them, destroying the context; output per job == single-process baseline;
         sequential cross-context probes; the same under ThreadSanitizer as the failing-input search for races.
    (K inner, round 2) coq/C13/Res.v extracted (ocaml/C13_driver.ml) vs `embed_c13 ops`: process-wide OS resources (streams,
-        descriptors, dlopen references) operation by operation; differential search per library (harness/scenarios_c13.py)."""
+        descriptors, dlopen references) operation by operation; differential search per library (harness/scenarios_c13.py).
+   (K inner, round 3) coq/C13/Sig.v (signal -> context table, delivery) and coq/C13/Tab.v (per-context heaps / type table / symbol
+        table / globals / modules with the disjointness invariant) extracted, compared operation by operation with `embed_c13 ops`
+        (ops raise / sigstate / tables / regtype / intern / define / lookup / find); oracle for tables = the context running alone."""
 import os, re, subprocess, sys, json, shlex
 from vlib import build as B
 
@@ -187,6 +190,78 @@ def _resources(ctx, emb, d, exe):
              "every operation compared with the extracted model (success, /proc/self/fd, /proc/self/maps, bytes that reached descriptors 1/2)" % len(plans))
 
 
+
+def _signals(ctx, emb, d, exe):
+    """(C, round 3) signal delivery: extracted model coq/C13/Sig.v vs the implementation, operation by operation"""
+    rng = ctx.rng
+    plans = [(3, 50), (4, 70), (3, 60), (5, 90)] if not ctx.thorough else [(rng.randrange(2, 6), rng.randrange(30, 200)) for _ in range(30)]
+    for n, (nctx, nops) in enumerate(plans):
+        ops, script, meta = SC.signals(rng, nctx, nops)
+        lines = ctx.run_model(exe, ["strace %d %s" % (nctx + 2, ";".join(ops))])
+        items = lines[0].split(";") if lines else []
+        if len(items) != len(ops):
+            ctx.broken("signal-model:driver", "model driver answered %r" % lines[:1])
+            return
+        rc, out, err, rp = _ops(emb, d, script, "sig%d" % n)
+        probs = SC.judge_signals(items, meta, out)
+        if rc != 0 and not any(p["sig"] in ("crash:ops", "signal:crash-on-delivery") for p in probs):
+            probs.append(dict(kind="violation", sig="crash:ops", at=len(meta) - 1, detail="rc=%s %s" % (rc, err[-300:])))
+        for p in probs[:6]:
+            hist = " ; ".join(m["op"] for m in meta[:p["at"] + 1])
+            if p["kind"] == "violation":
+                ctx.violation(p["sig"], input="operations (model syntax, coq/C13/Sig.v: n new, h install handler, g ignore, r raise, u run, x destroy): " + hist,
+                              expected="the trace of the extracted model", observed=p["detail"], replay=rp, script=script)
+            else:
+                ctx.broken(p["sig"], p["detail"] + " | operations: " + hist, replay=rp, script=script)
+        for m in meta:
+            ctx.count(1, key=("sig", n, m["op"], m["first_line"]), nontrivial=True)
+            if not probs:
+                ctx.cov["traces_validated_against_impl"] += 1
+        if n == 0:
+            ctx.sample(dict(kind="signals", operations=";".join(ops)[:300], model_trace_tail=lines[0][-160:]))
+    ctx.note("signal scenarios: %d (2-5 parent-less contexts install Scheme handlers for signals, kill(getpid(), s), contexts run their schedulers; after every "
+             "operation the pending mask and the handler log of EVERY live context are compared with the extracted model)" % len(plans))
+
+
+def _tables(ctx, emb, d, exe):
+    """(D, round 3) per-context tables: extracted model coq/C13/Tab.v vs the implementation, operation by operation"""
+    rng = ctx.rng
+    plans = [(3, 70), (4, 110)] if not ctx.thorough else [(rng.randrange(2, 7), rng.randrange(40, 260)) for _ in range(25)]
+
+    def run_model(ncore, nids, mops):
+        lines = ctx.run_model(exe, ["ttrace %d %d %s" % (ncore, nids, ";".join(mops))])
+        return lines[0].split(";") if lines and not lines[0].startswith("ERR") else lines[:1]
+    for n, (nctx, nops) in enumerate(plans):
+        plan = SC.tables_plan(rng, nctx, nops)
+        script, info = SC.tables_script(plan)
+        rc, out, err, rp = _ops(emb, d, script, "tab%d" % n)
+        alone = {}
+        for i in sorted({p["ctx"] for p in plan}):
+            sc_i, info_i = SC.tables_script(plan, only=i)
+            rci, outi, erri, rpi = _ops(emb, d, sc_i, "tab%d-alone%d" % (n, i))
+            alone[i] = (outi, info_i)
+        probs = SC.judge_tables(plan, out, info, alone, run_model)
+        if rc != 0 and not any(p["sig"] == "crash:ops" for p in probs):
+            probs.append(dict(kind="violation", sig="crash:ops", at=len(plan) - 1, detail="rc=%s %s" % (rc, err[-300:])))
+        for p in probs[:6]:
+            hist = " ; ".join("%s:c%d%s" % (q["kind"], q["ctx"], "".join(":%s" % q[f] for f in ("key", "parent", "name", "value", "lib") if f in q)) for q in plan[:p["at"] + 1])
+            if p["kind"] == "violation":
+                ctx.violation(p["sig"], input="table operations of %d parent-less contexts: %s" % (len({q["ctx"] for q in plan}), hist[-1500:]),
+                              expected="what the context shows when it runs the same operations alone (and the extracted model coq/C13/Tab.v)", observed=p["detail"], replay=rp, script=script)
+            else:
+                ctx.broken(p["sig"], p["detail"] + " | operations: " + hist[-800:], replay=rp, script=script)
+        for k, q in enumerate(plan):
+            ctx.count(1, key=("tab", n, k, q["kind"], q["ctx"]), nontrivial=True)
+            if not probs:
+                ctx.cov["traces_validated_against_impl"] += 1
+        if n == 0:
+            ctx.sample(dict(kind="tables", contexts=len(alone), operations=len(plan), first=[(q["kind"], q["ctx"]) for q in plan[:12]]))
+    ctx.note("table scenarios: %d (interleaved type registrations with parents incl. bursts across the type-array doubling, symbol interning, global definitions, "
+             "library imports, collections, destroys of 2-6 contexts; after every operation every live context's type-table length, type-array length, "
+             "symbol-table occupancy, module count, table identities, heap regions and a pointer audit of its tables are dumped and compared with the "
+             "extracted model and with the same context running alone)" % len(plans))
+
+
 _SO_LIBS = None
 # libraries the always-on sample of the differential search leaves out (terminals, sockets, processes, other platforms,
 # compiler internals); a library whose static breaks the inventory obligation is searched regardless
@@ -253,10 +328,12 @@ def _diffsearch(ctx, emb, d, libs, why, embt=None, dt=None):
         tag = re.sub(r"\W+", "-", lib).strip("-")
         for pool in (None, SC.POOL_MILD):
             two, pos_two, singA, posA, singB, posB = SC.diff_scripts(lib, names, ka, kb, sa, sb, pool)
-            runs = {"a1": _ops(emb, d, singA, "diff-%s-a1" % tag, timeout=90)}
+            runs = {"a1": _ops(emb, d, singA, "diff-%s-a1" % tag, timeout=30)}     # normally 1-3 s
             if runs["a1"][0] == 0:
                 break
             ctx.note("diffsearch %s: the single-context baseline itself dies (rc %s) when its exports get the %s argument pool" % (lib, runs["a1"][0], "mild" if pool else "full"))
+            if runs["a1"][0] == "timeout":
+                break              # an export that blocks in a single context blocks with the mild pool too
         if runs["a1"][0] != 0:
             continue
         import time as _t
@@ -283,7 +360,11 @@ def _diffsearch(ctx, emb, d, libs, why, embt=None, dt=None):
         ncall = 0
         diffs = []
         if rc != 0:
-            diffs.append(("crash", "rc=%s %s" % (rc, err[-300:]), "", ""))
+            done = max(O2) if O2 else 0
+            sl = two.split("\n")
+            diffs.append(("crash", "the script completes (each of the two programs completes in a context of its own)",
+                          "rc=%s; the process died in script line %d: %s | last completed: %s | %s" %
+                          (rc, done + 1, sl[done][:160] if done < len(sl) else "?", sl[done - 1][:100] if done else "-", err[-200:]), ""))
         for who, base, got in (("A", a1, tA), ("B", b1, tB)):
             for ph, (rb, rg) in enumerate(zip(base, got)):
                 if len(rb) != len(rg) and rc == 0:
@@ -296,7 +377,7 @@ def _diffsearch(ctx, emb, d, libs, why, embt=None, dt=None):
                         if kind_differs and x[0] in unstable_names and x[1] != "ERR" and y[1] != "ERR":
                             continue
                         diffs.append(("%s phase %d %s" % (who, ph + 1, x[0]), "%s|%s" % x[1:], "%s|%s" % y[1:], kind_differs))
-        for ln in (13, 14):
+        for ln in pos_two["audits"]:
             if O2.get(ln, ("", "", "ok"))[2] != "ok":
                 diffs.append(("heap audit line %d" % ln, "ok", O2[ln][2], True))
         ctx.count(ncall, key=("diffsearch", lib, ka, kb, sa, sb), nontrivial=True)
@@ -364,7 +445,11 @@ def run(ctx):
                        "predecessor or concurrent thread); plus the cross-context probes, one case each; plus (round 2) resource scenarios: "
                        "one case per operation of a random interleaving of creations (plain / documented standard ports / private dup'ed "
                        "streams), opens, writes, imports, calls and destroys of 2-8 contexts, compared with the extracted model; plus the "
-                       "differential search: one case per export call of a library in two contexts with different prior state")
+                       "differential search: one case per export call of a library in two contexts with different prior state; plus (round 3) signal "
+                       "scenarios (one case per install / ignore / raise / run / destroy of a random history, every live context's pending mask and "
+                       "handler log compared with the extracted model) and table scenarios (one case per type registration / intern / define / "
+                       "import / destroy of an interleaving of 2-6 contexts, every live context's tables dumped and compared with the extracted "
+                       "model and with the context running alone)")
     d = ctx.build("nohooks")
     # ---------------------------------------------------------------- (G) inventory + (T) theorems
     table, stats, sos = c13_statics.regen(ctx, d)
@@ -386,8 +471,10 @@ def run(ctx):
     ctx.trust("ThreadSanitizer (clang) as the race oracle; the harness's heap audit as the disjoint-heaps oracle")
     ctx.assume("embedding protocol of doc/chibi.scrbl: sexp_scheme_init() is called once before the first context is created "
                "(the two init flags are unsynchronised; first-use from several threads at once is outside the claim)")
-    ctx.assume("no set-signal-action! (one signal number maps to one context process-wide, lib/chibi/signal.c) and no failing heap-image "
-               "load/save (static message buffer gc_heap.c:10) in the isolated contexts; the executable main.c is not part of the claim")
+    ctx.assume("signal handlers (set-signal-action!) are inside the claim with the documented limitation, stated in coq/C13/Sig.v: one context per "
+               "signal number process-wide (registering s in context j re-routes s to j; different signals are independent), a context must "
+               "set its handled signals to ignore/default before it is destroyed, signals are raised while no OS thread is inside the registrant; "
+               "no failing heap-image load/save (static message buffer gc_heap.c:10); the executable main.c is not part of the claim")
     ctx.assume("of what the operating system shares between threads of one process, stdio streams / file descriptors and dlopen "
                "references are inside the claim (model coq/C13/Res.v, ownership = the port's no_close flag); cwd, environment "
                "variables, signal dispositions and the C library's own state stay outside")
@@ -398,6 +485,8 @@ def run(ctx):
     exe = ctx.extract("C13")
     if exe is not None:
         _resources(ctx, emb, d, exe)
+        _signals(ctx, emb, d, exe)
+        _tables(ctx, emb, d, exe)
     # libraries whose shared object holds a static the allow-list does not cover: failing-input search below
     so_libs = _so_libs(d)
     suspects = {}
